@@ -333,6 +333,13 @@ struct Net {
 	reest_seen: HashSet<(usize, usize)>,
 	/// nodes whose user currently refuses payment events (handler returns ReplayEvent)
 	hold_events: Vec<bool>,
+	defer_drain: bool,
+	/// HTLCs a node's user has been asked to place (HTLCIntercepted) and has not yet: (node, id, hash, next node, amount expected out)
+	intercepts: Vec<(usize, lightning::ln::channelmanager::InterceptId, usize, usize, u64)>,
+	/// payments sent over a node's intercept SCID: hash -> the node meant to receive the forward
+	intercept_next: HashMap<usize, usize>,
+	/// a batch open in progress: (funder, channels expected, what FundingGenerationReady has named so far)
+	batch_wait: Option<(usize, usize, Vec<(lightning::ln::types::ChannelId, bitcoin::secp256k1::PublicKey, u64, bitcoin::ScriptBuf)>)>,
 	/// refuse only PaymentFailed (an event without a completion action that would stall the channel)
 	hold_failed_only: Vec<bool>,
 	refused_logged: HashSet<(usize, String, usize)>,
@@ -667,6 +674,13 @@ impl Net {
 				let h = self.hash(&payment_hash.0);
 				self.ev(json!({"ev":"event","node":i,"kind":"PaymentClaimable","hash":h,"amt":amount_msat,"deadline":claim_deadline.unwrap_or(0)}));
 			},
+			Event::HTLCIntercepted { intercept_id, payment_hash, inbound_amount_msat, expected_outbound_amount_msat, .. } => {
+				let h = self.hash(&payment_hash.0);
+				self.ev(json!({"ev":"event","node":i,"kind":"HTLCIntercepted","hash":h,"amt":inbound_amount_msat,"out_amt":expected_outbound_amount_msat}));
+				let next = self.intercept_next.get(&h).cloned().unwrap_or(usize::MAX);
+				self.intercepts.retain(|x| !(x.0 == i && x.2 == h));
+				self.intercepts.push((i, intercept_id, h, next, expected_outbound_amount_msat));
+			},
 			Event::PaymentClaimed { payment_hash, amount_msat, .. } => {
 				let h = self.hash(&payment_hash.0);
 				self.ev(json!({"ev":"event","node":i,"kind":"PaymentClaimed","hash":h,"amt":amount_msat}));
@@ -717,6 +731,27 @@ impl Net {
 			Event::OpenChannelRequest { temporary_channel_id, counterparty_node_id, .. } => {
 				let ok = self.nodes[i].node.accept_inbound_channel(&temporary_channel_id, &counterparty_node_id, 43, None).is_ok();
 				self.ev(json!({"ev":"event","node":i,"kind":"OpenChannelRequest","accepted":ok}));
+			},
+			Event::FundingGenerationReady { temporary_channel_id, counterparty_node_id, channel_value_satoshis, output_script, .. }
+				if self.batch_wait.as_ref().map_or(false, |b| b.0 == i) => {
+				// one funding transaction for all channels of the batch, handed over once every channel has named its output
+				let mut bw = self.batch_wait.take().unwrap();
+				bw.2.push((temporary_channel_id, counterparty_node_id, channel_value_satoshis, output_script));
+				if bw.2.len() < bw.1 {
+					self.batch_wait = Some(bw);
+					self.ev(json!({"ev":"event","node":i,"kind":"FundingGenerationReady","ok":true}));
+				} else {
+					let tx = bitcoin::Transaction {
+						version: bitcoin::transaction::Version(7 + self.extra_funding.len() as i32),
+						lock_time: bitcoin::absolute::LockTime::ZERO,
+						input: Vec::new(),
+						output: bw.2.iter().map(|x| bitcoin::TxOut { value: bitcoin::Amount::from_sat(x.2), script_pubkey: x.3.clone() }).collect(),
+					};
+					let chans: Vec<(&lightning::ln::types::ChannelId, &bitcoin::secp256k1::PublicKey)> = bw.2.iter().map(|x| (&x.0, &x.1)).collect();
+					let ok = self.nodes[i].node.batch_funding_transaction_generated(&chans, tx.clone()).is_ok();
+					self.extra_funding.push(tx);
+					self.ev(json!({"ev":"event","node":i,"kind":"FundingGenerationReady","ok":ok}));
+				}
 			},
 			Event::FundingGenerationReady { temporary_channel_id, counterparty_node_id, channel_value_satoshis, output_script, .. } => {
 				let tx = bitcoin::Transaction {
@@ -807,7 +842,7 @@ impl Net {
 			Wire::FundingCreated(m) => n.handle_funding_created(from_pk, &m),
 			Wire::FundingSigned(m) => n.handle_funding_signed(from_pk, &m),
 		}
-		self.drain();
+		if !self.defer_drain { self.drain(); }
 		true
 	}
 
@@ -854,7 +889,8 @@ impl Net {
 		Some(rev)
 	}
 
-	fn send(&mut self, src: usize, dst: usize, amt: u64) -> bool {
+	fn send(&mut self, src: usize, dst: usize, amt: u64) -> bool { self.send_ext(src, dst, amt, false) }
+	fn send_ext(&mut self, src: usize, dst: usize, amt: u64, intercept: bool) -> bool {
 		// route along the line src -> ... -> dst
 		let mut hops = Vec::new();
 		let final_cltv = 70u32;
@@ -871,6 +907,8 @@ impl Net {
 					+ amt * cfg.channel_config.forwarding_fee_proportional_millionths as u64 / 1_000_000;
 				(f, cfg.channel_config.cltv_expiry_delta as u32)
 			};
+			// (the last hop may name the forwarder's intercept SCID instead of a channel: its user then decides)
+			let scid = if intercept && last && nh >= 2 { self.nodes[*a].node.get_intercept_scid() } else { scid };
 			hops.push(RouteHop {
 				pubkey: self.nodes[*b].node.get_our_node_id(),
 				node_features: NodeFeatures::from_le_bytes(self.nodes[*b].node.node_features().le_flags().to_vec()),
@@ -905,6 +943,7 @@ impl Net {
 		let (limit, min, usable) = self.nodes[src].node.list_channels().iter().find(|c| c.channel_id == cid)
 			.map(|c| (c.next_outbound_htlc_limit_msat, c.next_outbound_htlc_minimum_msat, c.is_usable)).unwrap_or((0, 0, false));
 		let h = self.hash(&hash.0);
+		if intercept && nh >= 2 { self.intercept_next.insert(h, dst); }
 		let res = self.nodes[src].node.send_payment_with_route(route, hash, RecipientOnionFields::secret_only(secret, amt), pid);
 		let api_ok = res.is_ok();
 		let c = self.chan(&cid);
@@ -933,7 +972,7 @@ impl Net {
 				let dst = op["to"].as_u64().unwrap() as usize;
 				if src >= n || dst >= n || src == dst { did = false; } else {
 					let amt = self.resolve_amount(src, dst, &op["amt"], rng);
-					if amt == 0 { did = false; } else { self.send(src, dst, amt); }
+					if amt == 0 { did = false; } else { self.send_ext(src, dst, amt, op["intercept"].as_bool().unwrap_or(false)); }
 				}
 			},
 			"deliver" => {
@@ -948,6 +987,45 @@ impl Net {
 					let pb = self.nodes[b].node.get_our_node_id();
 					let ok = self.nodes[a].node.create_channel(pb, 150_000, 0, 44, None, None).is_ok();
 					self.ev(json!({"ev":"open_extra","a":a,"b":b,"ok":ok}));
+					self.drain();
+				} else { did = false; }
+			},
+			"intercept_fwd" | "intercept_fail" => {
+				// the user places (forwards, possibly keeping `skim` msat more than its advertised fee) or refuses
+				// the HTLCs node i holds for its intercept SCID
+				let i = op["node"].as_u64().unwrap() as usize;
+				let skim = op["skim"].as_u64().unwrap_or(0);
+				let mine: Vec<_> = self.intercepts.iter().filter(|x| x.0 == i).cloned().collect();
+				if i < n && !mine.is_empty() {
+					self.intercepts.retain(|x| x.0 != i);
+					for (_, id, h, next, out_amt) in mine {
+						if name == "intercept_fail" || next >= n || !self.chan_ids.contains_key(&(i.min(next), i.max(next))) {
+							let ok = self.nodes[i].node.fail_intercepted_htlc(id).is_ok();
+							self.ev(json!({"ev":"intercept_fail","node":i,"hash":h,"ok":ok}));
+						} else {
+							let cid = self.chan_ids[&(i.min(next), i.max(next))];
+							let pk = self.nodes[next].node.get_our_node_id();
+							let amt = out_amt.saturating_sub(skim.min(out_amt / 2));
+							let ok = self.nodes[i].node.forward_intercepted_htlc(id, &cid, pk, amt).is_ok();
+							self.ev(json!({"ev":"intercept_fwd","node":i,"hash":h,"amt":amt,"skim":out_amt - amt,"ok":ok}));
+							if !ok { let _ = self.nodes[i].node.fail_intercepted_htlc(id); }
+						}
+						self.drain();
+					}
+				} else { did = false; }
+			},
+			"open_batch" => {
+				// one funding transaction for several new channels of node a
+				let a = op["a"].as_u64().unwrap() as usize;
+				let peers: Vec<usize> = op["peers"].as_array().map(|v| v.iter().filter_map(|x| x.as_u64()).map(|x| x as usize).collect()).unwrap_or_default();
+				if a < n && !peers.is_empty() && peers.iter().all(|b| *b < n && *b != a) && self.batch_wait.is_none() {
+					self.batch_wait = Some((a, peers.len(), Vec::new()));
+					for b in peers.iter() {
+						let pb = self.nodes[*b].node.get_our_node_id();
+						let ok = self.nodes[a].node.create_channel(pb, 150_000, 0, 44, None, None).is_ok();
+						self.ev(json!({"ev":"open_extra","a":a,"b":*b,"ok":ok}));
+						if !ok { if let Some(bw) = self.batch_wait.as_mut() { bw.1 -= 1; } }
+					}
 					self.drain();
 				} else { did = false; }
 			},
@@ -1024,7 +1102,8 @@ impl Net {
 				if k < self.pays.len() {
 					let (dst, pre, hash) = (self.pays[k].dst, self.pays[k].preimage, self.pays[k].hash);
 					let h = self.hash(&hash.0);
-					self.ev(json!({"ev":name,"node":dst,"hash":h}));
+					let height = self.nodes[dst].node.current_best_block().height;
+					self.ev(json!({"ev":name,"node":dst,"hash":h,"height":height}));
 					if name == "claim" { self.nodes[dst].node.claim_funds(pre); } else { self.nodes[dst].node.fail_htlc_backwards(&hash); }
 					self.drain();
 					if self.nodes[dst].node.needs_pending_htlc_processing() {
@@ -1081,6 +1160,31 @@ impl Net {
 						// the record comes first: the monitor update and the broadcast follow from the call
 						self.ev(json!({"ev":"force_close","node":a,"chan":c}));
 						let _ = self.nodes[a].node.force_close_broadcasting_latest_txn(&cid, &pb, "closed by the user".to_string());
+						self.drain();
+					} else { did = false; }
+				} else { did = false; }
+			},
+			"mon_broadcast" => {
+				// the user asks the ChannelMonitor itself (not the manager) to broadcast the latest holder
+				// commitment of a live channel; the manager learns of it only when it next looks at the
+				// monitor's events -- here after `then` more messages from the peer have been handled
+				let a = op["a"].as_u64().unwrap() as usize;
+				let b = op["b"].as_u64().unwrap() as usize;
+				let then = op["then"].as_u64().unwrap_or(0);
+				if a < n && b < n && self.chan_ids.contains_key(&(a.min(b), a.max(b))) {
+					let cid = self.chan_ids[&(a.min(b), a.max(b))];
+					let c = self.chan(&cid);
+					if self.nodes[a].node.list_channels().iter().any(|x| x.channel_id == cid) {
+						self.ev(json!({"ev":"force_close","node":a,"chan":c,"via":"monitor"}));
+						{
+							let node = &self.nodes[a];
+							if let Ok(mon) = node.chain_monitor.chain_monitor.get_monitor(cid) {
+								mon.broadcast_latest_holder_commitment_txn(&node.tx_broadcaster, &node.fee_estimator, &node.logger);
+							}
+						}
+						self.defer_drain = true;
+						for _ in 0..then { if !self.deliver_one(b, a) { break; } }
+						self.defer_drain = false;
 						self.drain();
 					} else { did = false; }
 				} else { did = false; }
@@ -1360,6 +1464,8 @@ impl Net {
 	/// durable monitor (every completed write) or a later in-flight write that happened to land.
 	fn crash(&mut self, i: usize, reload: bool, back: usize, mon_choice: &str, by_chan: &HashMap<usize, String>, rng: &mut StdRng) {
 		let n = self.nodes.len();
+		// (a refusal after the restart is a new fact: it is recorded again)
+		self.refused_logged.retain(|x| x.0 != i);
 		// the node's peers lose the connection
 		for j in 0..n {
 			if j == i { continue; }
@@ -1525,6 +1631,12 @@ fn build_net(run: u64, cfg: &Value, log: &Log) -> Net {
 	}
 	uc.channel_config.forwarding_fee_base_msat = 1000;
 	uc.channel_config.forwarding_fee_proportional_millionths = 0;
+	if cfg["intercept"].as_bool().unwrap_or(false) {
+		// LSP-style forwarding: nodes accept HTLCs for their intercept SCID and let the user decide where they
+		// go (possibly taking an extra fee), and accept HTLCs a previous hop has skimmed such a fee from
+		uc.htlc_interception_flags = lightning::util::config::HTLCInterceptionFlags::ToInterceptSCIDs as u8;
+		uc.channel_config.accept_underpaying_htlcs = true;
+	}
 	let ucs: Vec<Option<lightning::util::config::UserConfig>> = (0..n).map(|_| Some(uc.clone())).collect();
 	let mgrs = leak(create_node_chanmgrs(n, node_cfgs, &ucs));
 	let nodes = create_network(n, node_cfgs, mgrs);
@@ -1562,7 +1674,7 @@ fn build_net(run: u64, cfg: &Value, log: &Log) -> Net {
 	let mut net = Net {
 		nodes, cfgs, persisters, queues: HashMap::new(), connected, log: log.clone(), chans, hashes, points: Vec::new(),
 		pays: Vec::new(), scids, chan_ids, run, feerate: vec![feerate0; n], executed: 0, skipped: 0,
-		funding_txids: Vec::new(), extra_funding: Vec::new(), extra_broadcast: Vec::new(), mgr_snaps: vec![Vec::new(); n], mgr_clean: vec![Vec::new(); n], mgr_msgs: vec![Vec::new(); n], msgs_emitted: vec![0; n], mgr_evheld: vec![Vec::new(); n], mgr_writes: vec![Vec::new(); n], dirty: vec![HashSet::new(); n], mgr_held: vec![Vec::new(); n], reest_seen: HashSet::new(), hold_events: vec![false; n], hold_failed_only: vec![false; n], refused_logged: HashSet::new(), settling: false, sweepers: (0..n).map(|_| None).collect(), mempool: Vec::new(), spent: HashSet::new(), confirmed: HashSet::new(), saved_idx: vec![None; n], node_cfgs, txids, edges: edges.clone(),
+		funding_txids: Vec::new(), extra_funding: Vec::new(), extra_broadcast: Vec::new(), mgr_snaps: vec![Vec::new(); n], mgr_clean: vec![Vec::new(); n], mgr_msgs: vec![Vec::new(); n], msgs_emitted: vec![0; n], mgr_evheld: vec![Vec::new(); n], mgr_writes: vec![Vec::new(); n], dirty: vec![HashSet::new(); n], mgr_held: vec![Vec::new(); n], reest_seen: HashSet::new(), hold_events: vec![false; n], defer_drain: false, intercepts: Vec::new(), intercept_next: HashMap::new(), batch_wait: None, hold_failed_only: vec![false; n], refused_logged: HashSet::new(), settling: false, sweepers: (0..n).map(|_| None).collect(), mempool: Vec::new(), spent: HashSet::new(), confirmed: HashSet::new(), saved_idx: vec![None; n], node_cfgs, txids, edges: edges.clone(),
 	};
 	for i in 0..n {
 		let _ = net.nodes[i].node.get_and_clear_needs_persistence();
